@@ -12,6 +12,8 @@ import (
 	"github.com/emersion/go-webdav/verifharness/fw"
 )
 
+var hugeLimits = []int{math.MaxInt, 1 << 62, 1<<44 + 1, math.MinInt, -(1 << 44) - 1}
+
 var (
 	outerTests = []string{"", "anyof", "allof", "bogus-test"}
 	matchTypes = []string{"", "equals", "contains", "starts-with", "ends-with", "bogus-match"}
@@ -288,7 +290,12 @@ func partLimits(k *checker, idx *int) {
 	// Boundary values of the integer: far beyond any list length, and far
 	// below zero. "First Limit matches when positive, all otherwise" has no
 	// upper bound on Limit.
-	huge := []int{math.MaxInt, 1 << 62, 1<<32 + 1, 1 << 31, math.MinInt, -(1 << 31)}
+	// (Values between 1<<31 and 1<<42 are left out on purpose: code that
+	// sized an allocation by them would not panic but really reserve hundreds
+	// of gigabytes on this shared machine. 1<<44+1 still exposes a 32-bit
+	// truncation - it would become Limit 1 - and anything sized by it panics
+	// recoverably with "cap out of range".)
+	huge := hugeLimits
 	tms := []carddav.TextMatch{{Text: "a", MatchType: "equals"}}
 	for n := 0; n <= 5; n++ {
 		for pat := 0; pat < 1<<uint(n); pat++ {
@@ -597,7 +604,7 @@ func rndQuery(r *rand.Rand, objs []carddav.AddressObject) *carddav.AddressBookQu
 	}
 	q.Limit = r.Intn(len(objs)+3) - 1
 	if r.Intn(12) == 0 {
-		q.Limit = []int{math.MaxInt, 1 << 62, 1<<32 + 1, 1 << 31, math.MinInt, -(1 << 31), 1}[r.Intn(7)]
+		q.Limit = append([]int{1}, hugeLimits...)[r.Intn(1+len(hugeLimits))]
 	}
 	switch r.Intn(10) {
 	case 0:
